@@ -247,24 +247,35 @@ func (m *Machine) liveEntries(d *StoreData) ([][]*Term, []Value) {
 }
 
 func (m *Machine) makeIterator(s *SymStore, lo, hi []*Term, hasHi bool, reverse bool) *SymIter {
-	keys, vals := m.liveEntries(s.data)
+	// 1. keep only the writes whose key lies in the iterated range (most are excluded concretely,
+	//    by a differing constant prefix byte), 2. resolve liveness among those.
 	it := &SymIter{}
 	np := len(s.prefix)
-	for i, k := range keys {
+	sub := &StoreData{name: s.data.name}
+	for _, w := range s.data.writes {
+		k := w.key
 		if len(k) < np {
 			continue
 		}
-		if np > 0 && !m.decide(m.bytesEq(k[:np], s.prefix)) {
-			continue
+		in := m.tb.Bool(true)
+		if np > 0 {
+			in = m.bytesEq(k[:np], s.prefix)
 		}
 		rel := k[np:]
-		if len(lo) > 0 && !m.decide(m.bytesLess(lo, rel, true)) {
+		if len(lo) > 0 {
+			in = m.tb.And(in, m.bytesLess(lo, rel, true))
+		}
+		if hasHi {
+			in = m.tb.And(in, m.bytesLess(rel, hi, false))
+		}
+		if in.False() || !m.decide(in) {
 			continue
 		}
-		if hasHi && !m.decide(m.bytesLess(rel, hi, false)) {
-			continue
-		}
-		it.keys = append(it.keys, rel)
+		sub.writes = append(sub.writes, w)
+	}
+	keys, vals := m.liveEntries(sub)
+	for i, k := range keys {
+		it.keys = append(it.keys, k[np:])
 		it.vals = append(it.vals, vals[i])
 	}
 	// insertion sort by key (forks when the order depends on symbolic bytes)
